@@ -32,7 +32,7 @@ def units():
                   "function": "wavlike.c:wavlike_write_bext_chunk + wavlike_read_bext_chunk (with common.c psf_binheader_writef/readf)",
                   "link_sources": ["common.c"], "defines": ["-DHIST=%d" % hist, "-include", "/verif/spec/abi_vaarg.h"],
                   "pre_gi_flags": ["--remove-function-body", "psf_log_printf"],
-                  "cbmc_flags": ["--object-bits", "9", "--unwind", "30", "--unwindset", "h_bext_pair.0:1030,psf_binheader_writef.0:190"], "timeout": 900,
+                  "cbmc_flags": ["--object-bits", "9", "--unwind", "30", "--unwindset", "h_bext_pair.0:1030,h_bext_pair.1:1030,psf_binheader_writef.0:190"], "timeout": 900,
                   "kind": "proof(pair lemma; coding history size enumerated (%d); all field contents symbolic, ghost index into the text fields)" % hist,
                   "trusted": ["spec/abi_vaarg.h (variadic int arguments fetched as size_t)", "the reader's block is the harness's zeroed static block (broadcast_var_alloc stand-in)"]})
     for tag in (0, 6):
@@ -40,7 +40,7 @@ def units():
                   "function": "wavlike.c:wavlike_write_cart_chunk + wavlike_read_cart_chunk (with common.c psf_binheader_writef/readf)",
                   "link_sources": ["common.c"], "defines": ["-DTAG=%d" % tag, "-include", "/verif/spec/abi_vaarg.h"],
                   "pre_gi_flags": ["--remove-function-body", "psf_log_printf"],
-                  "cbmc_flags": ["--object-bits", "9", "--unwind", "30", "--unwindset", "h_cart_pair.0:4100,psf_binheader_writef.0:300"], "timeout": 900,
+                  "cbmc_flags": ["--object-bits", "9", "--unwind", "30", "--unwindset", "h_cart_pair.0:4100,h_cart_pair.1:4100,psf_binheader_writef.0:300"], "timeout": 900,
                   "kind": "proof(pair lemma; tag text size enumerated (%d); all field contents symbolic, ghost index into the text fields)" % tag,
                   "trusted": ["spec/abi_vaarg.h (variadic int arguments fetched as size_t)", "the reader's block is the harness's zeroed static block (cart_var_alloc stand-in)"]})
     return U
